@@ -42,6 +42,8 @@ def class_dump(cls) -> dict:
             "default": repr(f.default) if has_default else None,
             "default_type": canon_type(type(f.default)) if has_default else None,
             "default_factory": f.default_factory is not dataclasses.MISSING,
+            # per-field dataclass options: they decide what takes part in __init__, repr, eq and hash
+            "options": {"init": f.init, "repr": f.repr, "hash": f.hash, "compare": f.compare, "kw_only": f.kw_only},
         })
     p = cls.__dataclass_params__
     hs = getattr(cls, "__header_schema__", None)
